@@ -12,6 +12,7 @@ Mark sets are sorted duplicate-free lists of mark names (`Marks.lean`).
 Core Lean only: the driver links this file.
 -/
 import CtyModel.Ops2
+import CtyModel.SetImpl
 namespace CtyModel
 
 /-- union of a slice of mark sets (`WithMarks(marks...)`, `NewValueMarks`) -/
@@ -224,6 +225,76 @@ def markPathsObj (pvm : List PVM) (ts : List Ty) (path : Path) : List String →
   | _, vs => .ok vs
 end
 
+/-!
+### `Value.UnmarkDeep` as `transform` really computes it: sets are REBUILT
+
+`transform` replaces every non-empty set node by `SetVal(members in iteration
+order)`.  The members keep their buckets, but inside a bucket the slice order
+becomes the iteration order — `Values()`: bucket order, then `sort.SliceStable`
+by `setRules.Less` — instead of the order in which the members were once added.
+That changes the payload only when one bucket holds several members that `Less`
+puts in another order than they are stored in (members whose hash bytes collide
+under crc32); `RawEquals` and every accessor go through `Values()` and cannot
+tell.  `stripMarks` (Marks.lean) leaves sets as they are; the two agree up to
+that re-ordering (`Lemmas/MarksSets`: `sameSets_unmarkDeepR`).
+
+`bytesLess` is `bytes.Compare(makeSetHashBytes(a), makeSetHashBytes(b)) < 0`, the
+order `Less` uses for element types that are not primitive (an oracle).
+-/
+
+/-- `setRules{ety}.Less(a, b)` on mark-free member payloads -/
+def memberLess (bytesLess : Ty → Payload → Payload → Bool) (ety : Ty) (a b : Payload) : Bool :=
+  if a == b then false
+  else if b.isNull && !a.isNull then true
+  else if a.isNull then false
+  else if a.isKnown && !b.isKnown then true
+  else if !a.isKnown then false
+  else match ety with
+    | .string => (match a, b with
+      | .s x, .s y => decide (x < y)
+      | _, _ => false)
+    | .bool => (match a, b with
+      | .b x, .b y => y || !x
+      | _, _ => false)
+    | .number => (match a, b with
+      | .n x, .n y => decide (Num.cmp x y < 0)
+      | _, _ => false)
+    | _ => bytesLess ety a b
+
+/-- `SetVal(Values())`: the members in iteration order (stable sort by `Less`),
+added one by one to a fresh bucket map (stable regrouping by bucket id) -/
+def rebuildSet (less : Payload → Payload → Bool) (ids : List Int) (vs : List Payload) : List Int × List Payload :=
+  let sorted := SetImpl.sortStable (fun a b => less a.2 b.2) (ids.zip vs)
+  let regrouped := SetImpl.sortStable (fun a b => decide (a.1 < b.1)) sorted
+  (regrouped.map (·.1), regrouped.map (·.2))
+
+mutual
+def unmarkDeepR (bl : Ty → Payload → Payload → Bool) (t : Ty) : Payload → Payload
+  | .marked _ r => unmarkDeepR bl t r
+  | .seq vs =>
+    match t with
+    | .tuple es => .seq (unmarkDeepRZip bl es vs)
+    | t => .seq (unmarkDeepRAll bl (elemTy t) vs)
+  | .smap ks vs =>
+    match t with
+    | .object _ ts _ => .smap ks (unmarkDeepRZip bl ts vs)
+    | t => .smap ks (unmarkDeepRAll bl (elemTy t) vs)
+  | .sset ids vs =>
+    let r := rebuildSet (memberLess bl (elemTy t)) ids (unmarkDeepRAll bl (elemTy t) vs)
+    .sset r.1 r.2
+  | p => p
+def unmarkDeepRAll (bl : Ty → Payload → Payload → Bool) (e : Ty) : List Payload → List Payload
+  | [] => []
+  | v :: vs => unmarkDeepR bl e v :: unmarkDeepRAll bl e vs
+def unmarkDeepRZip (bl : Ty → Payload → Payload → Bool) : List Ty → List Payload → List Payload
+  | _, [] => []
+  | ts, v :: vs => unmarkDeepR bl (ts.headD .dyn) v :: unmarkDeepRZip bl ts.tail vs
+end
+
+/-- `Value.UnmarkDeep()`, sets rebuilt -/
+def unmarkDeepRPair (bl : Ty → Payload → Payload → Bool) (v : Value) : Value × List String :=
+  (⟨v.ty, unmarkDeepR bl v.ty v.v⟩, v.marksDeep)
+
 /-- `Value.MarkWithPaths(pvm)` -/
 def markWithPaths (v : Value) (pvm : List PVM) : Res Value :=
   (markPaths pvm v.ty [] v.v).map fun p => ⟨v.ty, p⟩
@@ -333,19 +404,40 @@ same wrapper of their own element conversion. -/
 def convWrap (inner : Value → Res Value) (v : Value) : Res Value :=
   if v.isMarked then (inner v.unmark).map (·.withMarks v.marks) else inner v
 
+/-! ### Multiply as /repo has it since commit 6d2fa5e
+
+On an unknown or dynamically typed operand: `if val.RawEquals(Zero) ||
+other.RawEquals(Zero) { return Zero }` before the range arithmetic.
+(`Ops2.mulU` still lacks the test; this copy is what it becomes.) -/
+
+/-- `v.RawEquals(cty.Zero)` for an unmarked operand -/
+def rawEqualsZero (v : Value) : Bool :=
+  v.ty.isNumber && (match v.v with | .n x => x.isZero | _ => false)
+
+/-- `cty.Zero` (a 53-bit zero) -/
+def zeroVal : Value := ⟨.number, .n (.fin false 0 0 53)⟩
+
+def mulUC (a b : Value) : Res Value := do
+  match ← typeCheck .number [a, b] with
+  | .none => pure (numVal (← Num.mulCty (← asNum a) (← asNum b)))
+  | _ => if rawEqualsZero a || rawEqualsZero b then pure zeroVal else rangeArith Num.mulCty a b
+def mulC := binMarks mulUC
+
 end Value
 
 /-! ### the operation methods of `cty.Value` that C04 quantifies over -/
 
-/-- The eighteen operation methods that return a `Value` (the remaining exported
-ones — `NotEqual`, `LessThanOrEqualTo`, `GreaterThanOrEqualTo` — are compositions
-of these).  `getAttr` carries its name argument, `hasElement` the bucket id of the
-deeply unmarked needle (oracle column). -/
+/-- The operation methods that return a `Value`: eighteen with a mark prologue of
+their own and the three that are compositions of those (`NotEqual` =
+`Equals.Not`, `LessThanOrEqualTo` = `LessThan.Or(Equals)`, `GreaterThanOrEqualTo`
+= `GreaterThan.Or(Equals)`).  `getAttr` carries its name argument, `hasElement`
+the bucket id of the deeply unmarked needle (oracle column). -/
 inductive Op where
   | equals | add | sub | mul | div | mod | neg | abs | not | and | or | lt | gt
   | index | hasIndex | length
   | getAttr (name : String)
   | hasElement (needleHash : Option Int)
+  | notEqual | le | ge
   deriving Repr, BEq, DecidableEq
 
 namespace Op
@@ -356,7 +448,7 @@ def run : Op → List Value → Res Value
   | .equals, [a, b] => Value.equals a b
   | .add, [a, b] => Value.add a b
   | .sub, [a, b] => Value.sub a b
-  | .mul, [a, b] => Value.mul a b
+  | .mul, [a, b] => Value.mulC a b
   | .div, [a, b] => Value.div a b
   | .mod, [a, b] => Value.mod a b
   | .neg, [a] => Value.neg a
@@ -371,13 +463,19 @@ def run : Op → List Value → Res Value
   | .length, [a] => Value.length a
   | .getAttr n, [a] => Value.getAttr a n
   | .hasElement h, [a, b] => Value.hasElement a b h
+  | .notEqual, [a, b] => Value.notEqual a b
+  | .le, [a, b] => Value.lessThanOrEqualTo a b
+  | .ge, [a, b] => Value.greaterThanOrEqualTo a b
   | _, _ => .unmodelled
 
 /-- The marks of operand number `i` that the method promises to keep on its
-result: the top-level marks, and for `Equals` (both operands) and the needle of
-`HasElement` the marks at every depth. -/
+result: the top-level marks, and for `Equals` (both operands), the three methods
+built on it, and the needle of `HasElement` the marks at every depth. -/
 def promised : Op → Nat → Value → List String
   | .equals, _, a => a.marksDeep
+  | .notEqual, _, a => a.marksDeep
+  | .le, _, a => a.marksDeep
+  | .ge, _, a => a.marksDeep
   | .hasElement _, 1, a => a.marksDeep
   | _, _, a => a.marks
 
